@@ -30,7 +30,7 @@ Definition d_int16 (d : dec) : dec * Z := read_prim d 2 true false.
 Definition d_int32 (d : dec) : dec * Z := read_prim d 4 true false.
 Definition val_bytes (v : val) : bytes := match v with VBytes l => l | _ => [] end.
 (* Data(): Int16 then Copy of the signed length *)
-Definition d_data (d : dec) : dec * bytes :=
+Definition d_getdata (d : dec) : dec * bytes :=
   let '(d1, l) := d_int16 d in
   let '(d2, v) := copy d1 l in (d2, val_bytes v).
 Definition d_seek (d : dec) (n : Z) : dec :=
@@ -147,7 +147,7 @@ Definition tail_vals {V} (rd : dec -> dec * V) (cont : Z -> bool) (fuel : nat)
 
 (* value readers: value-length field then the value *)
 Definition rd_int (d : dec) : dec * Z := let '(d1, _) := d_int16 d in d_int32 d1.
-Definition rd_str (d : dec) : dec * bytes := d_data d.
+Definition rd_str (d : dec) : dec * bytes := d_getdata d.
 Definition is_one (b : Z) : bool := b =? 1.
 (* as coded: the 2-byte value length is read with one Byte() for the first value and
    not at all for an additional value *)
@@ -160,7 +160,7 @@ Definition rd_bool (d : dec) : dec * bool :=
 
 (* valStr.decode *)
 Definition dec_str (fuel : nat) (d : dec) (tag : Z) : option (dec * attr) :=
-  let '(d1, name) := d_data d in
+  let '(d1, name) := d_getdata d in
   let '(d2, v) := rd_str d1 in
   match tail_vals rd_str (Z.eqb tag) fuel d2 [v] with
   | Some (d3, vs) => Some (d3, AStr tag name vs)
@@ -169,7 +169,7 @@ Definition dec_str (fuel : nat) (d : dec) (tag : Z) : option (dec * attr) :=
 
 (* valInt.decode as coded: at most one additional value, no loop *)
 Definition dec_int_coded (d : dec) (tag : Z) : dec * attr :=
-  let '(d1, name) := d_data d in
+  let '(d1, name) := d_getdata d in
   let '(d2, v1) := rd_int d1 in
   let '(d3, vtag) := d_byte d2 in
   if vtag =? tag then
@@ -181,7 +181,7 @@ Definition dec_int_coded (d : dec) (tag : Z) : dec * attr :=
 
 (* valInt.decode after C17-ipp-integer-1setof.patch: same loop as valStr *)
 Definition dec_int_fixed (fuel : nat) (d : dec) (tag : Z) : option (dec * attr) :=
-  let '(d1, name) := d_data d in
+  let '(d1, name) := d_getdata d in
   let '(d2, v) := rd_int d1 in
   match tail_vals rd_int (Z.eqb tag) fuel d2 [v] with
   | Some (d3, vs) => Some (d3, AInt tag name vs)
@@ -190,7 +190,7 @@ Definition dec_int_fixed (fuel : nat) (d : dec) (tag : Z) : option (dec * attr) 
 
 (* valBool.decode as coded: loops while the look-ahead byte DIFFERS from the tag *)
 Definition dec_bool_coded (fuel : nat) (d : dec) (tag : Z) : option (dec * attr) :=
-  let '(d1, name) := d_data d in
+  let '(d1, name) := d_getdata d in
   let '(d2, b) := rd_bool_first_coded d1 in
   match tail_vals rd_bool_more_coded (fun vt => negb (vt =? tag)) fuel d2 [b] with
   | Some (d3, vs) => Some (d3, ABool tag name vs)
@@ -199,7 +199,7 @@ Definition dec_bool_coded (fuel : nat) (d : dec) (tag : Z) : option (dec * attr)
 
 (* valBool.decode after C17-ipp-boolean-decode.patch *)
 Definition dec_bool_fixed (fuel : nat) (d : dec) (tag : Z) : option (dec * attr) :=
-  let '(d1, name) := d_data d in
+  let '(d1, name) := d_getdata d in
   let '(d2, b) := rd_bool d1 in
   match tail_vals rd_bool (Z.eqb tag) fuel d2 [b] with
   | Some (d3, vs) => Some (d3, ABool tag name vs)
@@ -208,7 +208,7 @@ Definition dec_bool_fixed (fuel : nat) (d : dec) (tag : Z) : option (dec * attr)
 
 (* valRangeInt.decode (reached only after C17-ipp-range-of-integer.patch) *)
 Definition dec_range (d : dec) (tag : Z) : dec * attr :=
-  let '(d1, name) := d_data d in
+  let '(d1, name) := d_getdata d in
   let '(d2, _) := d_int16 d1 in
   let '(d3, lo) := d_int32 d2 in
   let '(d4, hi) := d_int32 d3 in
